@@ -124,6 +124,39 @@ def exhaustive_ops(rng, draws):
     return ops
 
 
+_CROSS_PATTERNS = [
+    (2, 3, [(0, 0), (1, 2), (0, 1)]),
+    (3, 3, [(0, 0), (0, 1), (1, 1), (1, 2)]),          # valid upper
+    (3, 3, [(2, 0), (1, 1), (2, 1), (0, 0)]),          # valid lower, unsorted
+    (0, 2, []),
+    (3, 0, []),
+    (3, 3, [(1, 1), (0, 2), (1, 1)]),                  # duplicate
+    (2, 2, [(0, 0), (1, 0), (0, 1), (1, 1)]),
+]
+
+
+def crossed_ops():
+    """Fully crossed sweep over a few fixed patterns: every SparsityConverter<From, To> instantiation
+    (7 × 7 formats/index types, directly and through the variant) × symmetry × every truthful order
+    tag × first_index ∈ {0, 1} × every request."""
+    ops = []
+    for rows, cols, ents in _CROSS_PATTERNS:
+        for sym in (UNSYM, UPPER, LOWER):
+            for to in TARGETS:
+                reqs = ['-'] if to == 'D' else ['-', '0', '1']
+                for req in reqs:
+                    for op in ('cv', 'cw'):
+                        for w in WIDTHS:
+                            for fi in (0, 1):
+                                for order in coo_orders_true(ents):
+                                    ops.append(f'{op} {to} {req} {coo_src(w, rows, cols, sym, order, fi, ents)}')
+                            outer, inner, per = csc_from_entries(cols, ents)
+                            srt = all(q == sorted(q) for q in per)
+                            for order in ([0, 1] if srt else [0]):
+                                ops.append(f'{op} {to} {req} {csc_src(w, rows, cols, sym, order, outer, inner)}')
+    return ops
+
+
 def random_ops(rng, n):
     ops = []
     for _ in range(n):
@@ -168,6 +201,7 @@ def gen_ops(rng, n):
     ops = ['feature']
     if _first_call[0]:
         # the exhaustive part once per process (the search-on-break loop re-draws the random part only)
+        ops += crossed_ops()
         ops += exhaustive_ops(rng, 3 if n < 100000 else 12)
         _first_call[0] = False
     ops += random_ops(rng, n)
@@ -403,9 +437,35 @@ def nontrivial(op, out):
     return None
 
 
-if __name__ == '__main__':
-    sys.exit(C.standard_check(
-        'C14', sys.argv,
+def replay(r):
+    """`checks/replay.py <file>`: ops are independent, so re-run just the recorded op through the
+    real code, the Lean driver and the monitor; without a recorded op re-run the seeded check."""
+    op = (r.get('payload') or {}).get('op')
+    if not op or op == 'feature':
+        os.environ['VERIF_SEED'] = str(r.get('seed', 1))
+        return main(['c14.py', '--tier', r.get('tier', 'quick')])
+    C.run_gen('gen_c14.py')
+    C.lake_build(['drv_c14'])
+    exe, log = C.build_exe('c14', [os.path.join(C.VERIF, 'harness', 'c14.cpp')])
+    if exe is None:
+        print('harness does not compile: ' + log[-800:])
+        return 1
+    ops = ['feature', op]
+    hout, rc, err = C.run_lines(exe, ops)
+    dout, _, _ = C.run_lines(C.driver_exe('drv_c14'), ops)
+    st = {}
+    msgs = [monitor(o, h, st) for o, h in zip(ops, hout)]
+    print('op    :', op)
+    print('impl  :', hout[1] if len(hout) > 1 else f'<crashed rc={rc}> {err[-300:]}')
+    print('model :', dout[1] if len(dout) > 1 else '<no output>')
+    print('monitor:', msgs[1] if len(msgs) > 1 else None)
+    bad = len(hout) < 2 or bool(msgs[1]) or hout[1:] != dout[1:]
+    return 1 if bad else 0
+
+
+def main(argv):
+    return C.standard_check(
+        'C14', argv,
         gen_scripts=['gen_c14.py'], modules=['Alpaqa.Props.C14'], driver='drv_c14',
         extra_sources=['Alpaqa/Model/C14.lean', 'Alpaqa/Gen/C14.lean', 'Alpaqa/Proofs/C14.lean',
                        'Driver/C14.lean'],
@@ -427,9 +487,14 @@ if __name__ == '__main__':
         ],
         assumptions=['library preconditions: unique entries (asserted by the library in debug builds), '
                      'well-formed outer pointers, equal-length index vectors'],
-        rule='exhaustive: all shapes 0..3 × 0..3, all multisets of ≤ 4 cells (duplicates included) × '
+        rule='fully crossed: 7 fixed patterns × all 7×7 (format, index type) pairs × direct/variant × symmetry × '
+             'truthful order tags × first_index ∈ {0,1} × requests; exhaustive: all shapes 0..3 × 0..3, all multisets of ≤ 4 cells (duplicates included) × '
              '{COO, CSC} × symmetry × target format, dense sources × all targets × requests; entry order, '
              'index widths, order tag, first_index ∈ {0,1}, request, direct/variant wrapper drawn per case; '
              'plus seeded random patterns up to 6×7 (≤ 12 entries, first_index ∈ {-1,0,1,2,5}, out-of-range '
              'entries for sparse→sparse); distinct = distinct op lines with ≥ 1 value',
-    ))
+    )
+
+
+if __name__ == '__main__':
+    sys.exit(main(sys.argv))
